@@ -185,6 +185,25 @@ func OrcaFault(a Args) {
 					}
 					ca.Close()
 					s.Arm() // no more faults
+					// thorough: one more write on the key through a fresh connection (what a client that saw the
+					// error does next), rotating over command and port - the depth at which the design model
+					// shows its half-applied deletes and refused adds
+					if a.Mode == "thorough" {
+						fw := []MCmd{{Op: "delete", K: sc.Cmd.firstKey()}, {Op: "add", K: sc.Cmd.firstKey(), V: []int{6}, F: 2},
+							{Op: "append", K: sc.Cmd.firstKey(), V: []int{7}}, {Op: "set", K: sc.Cmd.firstKey(), V: []int{5}, F: 1},
+							{Op: "touch", K: sc.Cmd.firstKey(), T: 3}, {Op: "replace", K: sc.Cmd.firstKey(), V: []int{4}, F: 3}}[nplace%6]
+						if !(text && fw.Op == "gat") {
+							p := ports[(nplace/6)%len(ports)]
+							cw := dial(p)
+							res, out = do(cw, fw)
+							l1j, l2j = tiers()
+							rec.Emit(map[string]interface{}{"ev": "op", "port": p, "x": xJSON(fw), "res": res, "l1": l1j, "l2": l2j, "fault": fault, "role": "followup-write"})
+							if out.Class == "timeout" {
+								hangs++
+							}
+							cw.Close()
+						}
+					}
 					// other connections: every key on every port, then again with L1 emptied
 					for round := 0; round < 2; round++ {
 						for _, p := range ports {
